@@ -1,6 +1,7 @@
 """Exploration driver: depth-first by re-execution with a decision prefix, immediate
 discharge of obligations, known-finding regions, concolic replay per path."""
 import math
+import os
 import struct
 import sys
 import time
@@ -461,20 +462,45 @@ def _profile_collector(store):
     return prof
 
 
+class Hang(BaseException):
+    """a concrete run exceeded CONCRETE_LIMIT_S (the descriptions and inputs are tiny: every
+    terminating run takes milliseconds)"""
+
+
+CONCRETE_LIMIT_S = int(os.environ.get("VERIF_CONCRETE_LIMIT_S", "20"))
+
+
 def run_concrete(run, cfg, env, values):
     """run the harness on plain python values against the unpatched library.
-    returns (status, detail, obs): status in ok / require:<label> / assumption / escape"""
+    returns (status, detail, obs): status in ok / require:<label> / assumption / escape;
+    a run that does not finish within CONCRETE_LIMIT_S is reported as require:terminates"""
+    import signal
+    import threading
     sx = Sx(ctx=None, values=values, cfg=cfg)
+    timed = threading.current_thread() is threading.main_thread()
+
+    def _alarm(signum, frame):
+        raise Hang()
     with shims.unpatched():
+        if timed:
+            old = signal.signal(signal.SIGALRM, _alarm)
+            signal.alarm(CONCRETE_LIMIT_S)
         try:
             run(sx, cfg, env)
             return "ok", None, {k: normal(v) for k, v in sx.obs.items()}, sx
+        except Hang:
+            return "require:terminates", f"no result within {CONCRETE_LIMIT_S}s", \
+                {k: normal(v) for k, v in sx.obs.items()}, sx
         except RequireFailed as e:
             return "require:" + e.label, None, {k: normal(v) for k, v in sx.obs.items()}, sx
         except AssumptionFailed as e:
             return "assumption", str(e), {}, sx
         except Exception as e:  # noqa: BLE001
             return "escape", f"{type(e).__name__}: {e}", {}, sx
+        finally:
+            if timed:
+                signal.alarm(0)
+                signal.signal(signal.SIGALRM, old)
 
 
 def explore_config(run, cfg, env, limits=None, findings=(), width=80, collect_functions=True,
@@ -512,7 +538,27 @@ def explore_config(run, cfg, env, limits=None, findings=(), width=80, collect_fu
             status = "abort"
         except Inconclusive as e:
             status = "inconclusive"
-            res["inconclusive"].append(f"{e.reason} [{_where()}]")
+            where = _where()
+            hang = None
+            if "decisions on one path" in e.reason and \
+                    not any(v["label"] == "terminates" for v in res["violations"]):
+                # termination witness: the inputs of this path, run on the unpatched library
+                try:
+                    Ctx.cur = None
+                    values = sx.model_inputs(ctx.get_model())
+                    st, _, _, _ = run_concrete(run, cfg, env, values)
+                    if st == "require:terminates":
+                        hang = values
+                except (Abort, Inconclusive):
+                    pass
+                except Exception as e2:  # noqa: BLE001
+                    res["errors"].append(f"termination witness crashed: {type(e2).__name__}: {e2}")
+            if hang is not None:
+                if not any(v["label"] == "terminates" for v in res["violations"]):
+                    res["violations"].append({"label": "terminates", "inputs": hang,
+                                              "path": res["paths"] + 1})
+            else:
+                res["inconclusive"].append(f"{e.reason} [{where}]")
         except (RequireFailed, AssumptionFailed) as e:
             status = "error"
             res["errors"].append(f"concrete-mode exception in symbolic run: {e!r}")
